@@ -323,6 +323,24 @@ func buildMetrics(base int, tag string, sh shape, big map[int]bool) pmetric.Metr
 	return md
 }
 
+const shellTag = "!shell"
+
+func metricPoints(m pmetric.Metric) int {
+	switch m.Type() {
+	case pmetric.MetricTypeGauge:
+		return m.Gauge().DataPoints().Len()
+	case pmetric.MetricTypeSum:
+		return m.Sum().DataPoints().Len()
+	case pmetric.MetricTypeHistogram:
+		return m.Histogram().DataPoints().Len()
+	case pmetric.MetricTypeExponentialHistogram:
+		return m.ExponentialHistogram().DataPoints().Len()
+	case pmetric.MetricTypeSummary:
+		return m.Summary().DataPoints().Len()
+	}
+	return 0
+}
+
 func canonMetric(m pmetric.Metric) string {
 	temp, mono := "-", "-"
 	switch m.Type() {
@@ -348,6 +366,11 @@ func projectMetrics(md pmetric.Metrics, tags *[]string) []item {
 			sc := canonScope(sm.Scope(), sm.SchemaUrl())
 			for x := 0; x < sm.Metrics().Len(); x++ {
 				m := sm.Metrics().At(x)
+				if tags != nil && m.Name() == "" && metricPoints(m) == 0 {
+					// an unnamed metric without data points: not something the driver ever builds, it is the shell an
+					// extraction leaves in a part when no data point fitted
+					*tags = append(*tags, shellTag)
+				}
 				pre := rc + " " + sc + " " + canonMetric(m) + " "
 				add := func(attrs pcommon.Map, content string) {
 					out = append(out, item{itemID(attrs), digest(pre + "point{" + content + " attrs=" + rawMap(attrs) + "}")})
